@@ -260,7 +260,23 @@ def o_history(case):
         # ---- the delivery
         ncb = len(cb_log)
         try:
-            ops = bc.add_headers(iter(batch))
+            if case.get("lazy") and (len(cb_log) + len(batch)) % 2 == 0:
+                # the batch arrives as a stream whose producer looks at the tracker between headers (a sync loop that
+                # logs its progress): reading the chain while a delivery is being consumed must not change the outcome
+                def stream(items=batch):
+                    for k, h in enumerate(items):
+                        if k % 2 == 0:
+                            bc.length()
+                            bc.last_block_hash()
+                        else:
+                            if bc.length() > 0:
+                                bc.hash_for_index(0)
+                            bc.index_for_hash(h.hash())
+                        yield h
+                ops = bc.add_headers(stream())
+                labs.add("lazy-batch-reading-the-chain")
+            else:
+                ops = bc.add_headers(iter(batch))
         except Exception as ex:
             ops = ex
         if same_batch_trigger and _stale_top(bc):
@@ -430,6 +446,8 @@ def s_history(draw):
     wscale = draw(WSCALES)
     if wscale:
         case["wscale"] = wscale
+    if draw(st.integers(0, 3)) == 0:
+        case["lazy"] = True
     return case
 
 
